@@ -285,7 +285,10 @@ N4:         goto O0;
          end if;
       end if;
 O3:   if LBP(optok) < min then ret := lhs; depth := base; return; end if;
-O4:   if NotGate /\ isnot then call advance(); end if;
+O4:   \* `lhs not OP rhs` builds two tree levels (and is rendered as `not (..)`): both count towards the nesting budget
+      if NotGate /\ isnot then call enter(); end if;
+O4a:  if err then return; end if;
+O4b:  if NotGate /\ isnot then call advance(); end if;
 O5:   op := cur[2]; rbp := RBP(cur);
       call enter();
 O5b:  if err then return; end if;
@@ -319,7 +322,7 @@ Nxt:  idx := idx + 1;
 End: skip;
 end process;
 end algorithm; *)
-\* BEGIN TRANSLATION (chksum(pcal) = "597c61d5" /\ chksum(tla) = "9e5c8d1f")
+\* BEGIN TRANSLATION (chksum(pcal) = "2febbc0a" /\ chksum(tla) = "53ecde72")
 \* Procedure variable tk of procedure advance at line 75 col 12 changed to tk_
 \* Procedure variable op of procedure parse_token at line 152 col 39 changed to op_
 CONSTANT defaultInitValue
@@ -1535,18 +1538,51 @@ O3(self) == /\ pc[self] = "O3"
 
 O4(self) == /\ pc[self] = "O4"
             /\ IF NotGate /\ isnot[self]
-                  THEN /\ stack' = [stack EXCEPT ![self] = << [ procedure |->  "advance",
-                                                                pc        |->  "O5",
-                                                                tk_       |->  tk_[self] ] >>
+                  THEN /\ stack' = [stack EXCEPT ![self] = << [ procedure |->  "enter",
+                                                                pc        |->  "O4a" ] >>
                                                             \o stack[self]]
-                       /\ tk_' = [tk_ EXCEPT ![self] = NOTOK]
-                       /\ pc' = [pc EXCEPT ![self] = "Adv"]
-                  ELSE /\ pc' = [pc EXCEPT ![self] = "O5"]
-                       /\ UNCHANGED << stack, tk_ >>
+                       /\ pc' = [pc EXCEPT ![self] = "En"]
+                  ELSE /\ pc' = [pc EXCEPT ![self] = "O4a"]
+                       /\ stack' = stack
             /\ UNCHANGED << idx, last, consumed, cur, la, ret, err, etag, 
-                            result, done, depth, maxdepth, steps, tk, ans, 
+                            result, done, depth, maxdepth, steps, tk_, tk, ans, 
                             items, key, op_, name, min, lhs, isnot, op, rbp, a, 
                             optok, base, pendingnot >>
+
+O4a(self) == /\ pc[self] = "O4a"
+             /\ IF err
+                   THEN /\ pc' = [pc EXCEPT ![self] = Head(stack[self]).pc]
+                        /\ isnot' = [isnot EXCEPT ![self] = Head(stack[self]).isnot]
+                        /\ op' = [op EXCEPT ![self] = Head(stack[self]).op]
+                        /\ rbp' = [rbp EXCEPT ![self] = Head(stack[self]).rbp]
+                        /\ a' = [a EXCEPT ![self] = Head(stack[self]).a]
+                        /\ optok' = [optok EXCEPT ![self] = Head(stack[self]).optok]
+                        /\ base' = [base EXCEPT ![self] = Head(stack[self]).base]
+                        /\ pendingnot' = [pendingnot EXCEPT ![self] = Head(stack[self]).pendingnot]
+                        /\ min' = [min EXCEPT ![self] = Head(stack[self]).min]
+                        /\ lhs' = [lhs EXCEPT ![self] = Head(stack[self]).lhs]
+                        /\ stack' = [stack EXCEPT ![self] = Tail(stack[self])]
+                   ELSE /\ pc' = [pc EXCEPT ![self] = "O4b"]
+                        /\ UNCHANGED << stack, min, lhs, isnot, op, rbp, a, 
+                                        optok, base, pendingnot >>
+             /\ UNCHANGED << idx, last, consumed, cur, la, ret, err, etag, 
+                             result, done, depth, maxdepth, steps, tk_, tk, 
+                             ans, items, key, op_, name >>
+
+O4b(self) == /\ pc[self] = "O4b"
+             /\ IF NotGate /\ isnot[self]
+                   THEN /\ stack' = [stack EXCEPT ![self] = << [ procedure |->  "advance",
+                                                                 pc        |->  "O5",
+                                                                 tk_       |->  tk_[self] ] >>
+                                                             \o stack[self]]
+                        /\ tk_' = [tk_ EXCEPT ![self] = NOTOK]
+                        /\ pc' = [pc EXCEPT ![self] = "Adv"]
+                   ELSE /\ pc' = [pc EXCEPT ![self] = "O5"]
+                        /\ UNCHANGED << stack, tk_ >>
+             /\ UNCHANGED << idx, last, consumed, cur, la, ret, err, etag, 
+                             result, done, depth, maxdepth, steps, tk, ans, 
+                             items, key, op_, name, min, lhs, isnot, op, rbp, 
+                             a, optok, base, pendingnot >>
 
 O5(self) == /\ pc[self] = "O5"
             /\ op' = [op EXCEPT ![self] = cur[2]]
@@ -1711,9 +1747,10 @@ parse_op(self) == O00(self) \/ O0(self) \/ O1(self) \/ Q0a(self)
                      \/ Q0b(self) \/ Q0(self) \/ Q1(self) \/ Q2(self)
                      \/ Q3(self) \/ Q4(self) \/ O2(self) \/ N1(self)
                      \/ N2(self) \/ N3(self) \/ N4(self) \/ O3(self)
-                     \/ O4(self) \/ O5(self) \/ O5b(self) \/ O5c(self)
-                     \/ O6(self) \/ O7(self) \/ O8(self) \/ G1(self)
-                     \/ O9(self) \/ O10(self) \/ O11(self)
+                     \/ O4(self) \/ O4a(self) \/ O4b(self) \/ O5(self)
+                     \/ O5b(self) \/ O5c(self) \/ O6(self) \/ O7(self)
+                     \/ O8(self) \/ G1(self) \/ O9(self) \/ O10(self)
+                     \/ O11(self)
 
 D0 == /\ pc[1] = "D0"
       /\ IF idx <= last
@@ -1749,7 +1786,7 @@ M == /\ pc[1] = "M"
 
 Fin == /\ pc[1] = "Fin"
        /\ Assert(Report(idx, SelectSeq(consumed \o la, LAMBDA x : x # EOFTOK), ~err, IF err THEN <<"error", etag>> ELSE result), 
-                 "Failure of assertion at line 316, column 7.")
+                 "Failure of assertion at line 319, column 7.")
        /\ pc' = [pc EXCEPT ![1] = "Nxt"]
        /\ UNCHANGED << idx, last, consumed, cur, la, ret, err, etag, result, 
                        done, depth, maxdepth, steps, stack, tk_, tk, ans, 
